@@ -91,7 +91,8 @@ def _tx_events(args):
                 ws, we = rnd.randrange(0, blocks[0][0] + 1), rnd.randrange(blocks[-1][1], G + 1)
             B = None
             try:
-                B = mk_tx(blocks, st, cds, None, frames=frames, parent=E.chunk_parent(root, ws, we, minus=rnd.random() < 0.3))
+                minus_chunk = rnd.random() < 0.3
+                B = mk_tx(blocks, st, cds, None, frames=frames, parent=E.chunk_parent(root, ws, we, minus=minus_chunk))
                 if rnd.random() < 0.3:
                     E.warm(B)
             except Exception:
@@ -108,6 +109,16 @@ def _tx_events(args):
                            [o(lambda i=i: B.cds_pos_to_transcript(i)) for i in range(-1, m + 1)],
                            aa if cds else [o(lambda p=p: B.cds.sequence_pos_to_amino_acid(p)) for p in rng_p],
                            E.loc_outcome(lambda: B.chromosome_intron_location), E.loc_outcome(lambda: B.chromosome_span)])
+                # ... and its chunk-relative coordinate system: the C01 maps of the part that lies on the chunk
+                rq = range(-1, we - ws + 1)
+                ev.append(["crmap", [blocks, st], [cds, st] if cds else [[], "e"], ws, we, minus_chunk,
+                           [o(lambda q=q: B.chunk_relative_pos_to_transcript(q)) for q in rq],
+                           [o(lambda i=i: B.transcript_pos_to_chunk_relative(i)) for i in range(-1, n + 1)],
+                           [o(lambda q=q: B.chunk_relative_pos_to_cds(q)) for q in rq],
+                           [o(lambda i=i: B.cds_pos_to_chunk_relative(i)) for i in range(-1, m + 1)],
+                           [o(lambda: B.chunk_relative_start), o(lambda: B.chunk_relative_end), o(lambda: B.chunk_relative_size),
+                            o(lambda: B.chunk_relative_strand.to_symbol()), o(lambda: B.cds_start), o(lambda: B.cds_end),
+                            o(lambda: B.chunk_relative_cds_start), o(lambda: B.chunk_relative_cds_end)]])
         if rnd.random() < 0.5:
             # intersect(location): the interval restricted to another location (1-2 blocks, any strand, with or without
             # ), as a new transcript / feature
